@@ -591,6 +591,105 @@ fn concurrent_rounds(a: &Args, rep: &mut Report, rounds: u32) {
    rep.count("concurrent_rounds(workers insert overlapping batches; one raced key)", n);
 }
 
+/// Lookups in an unfrozen concurrent full index while other threads insert other keys (what the parallel lattice head
+/// update does with the key index of `new`): a key that was inserted before the lookup started is always found with
+/// its value, a key nobody inserts is never found, and a thread finds what it has just inserted itself.
+fn read_while_write_rounds(a: &Args, rep: &mut Report, rounds: u32) {
+   use std::sync::atomic::{AtomicBool, AtomicU64, Ordering};
+   let mut lookups_total = 0u64;
+   for round in 0..rounds {
+      let made_in = [1usize, 2, 8][(round as usize + a.seed as usize) % 3];
+      let writers = [2usize, 4, 6][(round as usize / 3 + a.seed as usize) % 3];
+      let readers = 2 + (round as usize % 3);
+      let present: u32 = 48 + (a.seed as u32 % 16);
+      let per_writer: u32 = 3000;
+      let res = catch(|| {
+         let cf = pool_of(made_in).install(CRelFullIndex::<(u32,), u32>::default);
+         for k in 0..present {
+            CRelFullIndexWrite::insert_if_not_present(&cf, &(k,), k + 1000);
+         }
+         let done = AtomicBool::new(false);
+         let lookups = AtomicU64::new(0);
+         let errs = std::sync::Mutex::new(Vec::<String>::new());
+         std::thread::scope(|sc| {
+            let mut hs = vec![];
+            for w in 0..writers as u32 {
+               let (cf, errs) = (&cf, &errs);
+               hs.push(sc.spawn(move || {
+                  for i in 0..per_writer {
+                     let k = 100_000 + w * per_writer + i;
+                     CRelFullIndexWrite::insert_if_not_present(cf, &(k,), k ^ 7);
+                     if i % 16 == 0 && cf.get_cloned(&(k,)) != Some(k ^ 7) {
+                        errs.lock().unwrap().push(format!("a thread does not find key {k} that it has just inserted itself"));
+                        return;
+                     }
+                  }
+               }));
+            }
+            for rd in 0..readers as u32 {
+               let (cf, errs, done, lookups) = (&cf, &errs, &done, &lookups);
+               sc.spawn(move || {
+                  let mut n = 0u64;
+                  let mut pass = 0u32;
+                  while !done.load(Ordering::Acquire) || pass < 2 {
+                     pass += 1;
+                     for k in 0..present {
+                        n += 1;
+                        let got = cf.get_cloned(&(k,));
+                        if got != Some(k + 1000) {
+                           errs.lock().unwrap().push(format!(
+                              "get_cloned of key {k}, inserted before the lookups started, returned {got:?} while other keys were being inserted (expected Some({}))",
+                              k + 1000
+                           ));
+                           lookups.fetch_add(n, Ordering::Relaxed);
+                           return;
+                        }
+                     }
+                     let absent = 50_000_000 + rd * 1000 + (pass % 1000);
+                     if let Some(v) = cf.get_cloned(&(absent,)) {
+                        errs.lock().unwrap().push(format!("get_cloned of key {absent}, which nobody inserts, returned Some({v})"));
+                        return;
+                     }
+                  }
+                  lookups.fetch_add(n, Ordering::Relaxed);
+               });
+            }
+            for h in hs {
+               let _ = h.join();
+            }
+            done.store(true, Ordering::Release);
+         });
+         // afterwards everything is there, once
+         let mut cf = cf;
+         Freezable::freeze(&mut cf);
+         let mut errs = errs.into_inner().unwrap();
+         let n_all = RelIndexReadAll::iter_all(&cf).count();
+         let want = present as usize + writers * per_writer as usize;
+         if n_all != want {
+            errs.push(format!("after {writers} writers: {n_all} keys in the index, {want} were inserted"));
+         }
+         (errs, lookups.load(Ordering::Relaxed))
+      });
+      rep.evaluations += 1;
+      rep.nontrivial += 1;
+      match res {
+         Ok((errs, n)) => {
+            lookups_total += n;
+            if let Some(e) = errs.into_iter().next() {
+               rep.violation(serde_json::json!({"read_while_write_round": round, "created_under_threads": made_in, "writers": writers, "readers": readers, "failure": e}));
+               break;
+            }
+         },
+         Err(p) => {
+            rep.violation(serde_json::json!({"read_while_write_round": round, "panic": p}));
+            break;
+         },
+      }
+   }
+   rep.count("read_while_write_rounds(CRelFullIndex::get_cloned during concurrent inserts of other keys)", rounds as u64);
+   rep.count("read_while_write_lookups", lookups_total);
+}
+
 pub fn run(a: &Args, rep: &mut Report) {
    let cases = if a.tier == "quick" { 3000 } else { 60000 };
    run_type::<RelIndexType1<(u8,), (u8,)>>(a, rep, cases);
@@ -602,6 +701,7 @@ pub fn run(a: &Args, rep: &mut Report) {
    run_type::<CRelFullIndex<(u8,), u8>>(a, rep, cases);
    run_type::<CRelNoIndex<(u8,)>>(a, rep, cases);
    concurrent_rounds(a, rep, if a.tier == "quick" { 400 } else { 6000 });
+   read_while_write_rounds(a, rep, if a.tier == "quick" { 12 } else { 120 });
    rep.notes.push("RelIndexCombined is exercised over (total, delta) of every type; for the concurrent types every second history creates the three versions in pools of different sizes and makes each insert on a chosen worker; the concurrent rounds create the indices under 1, 2 or 8 threads and fill them from 2-8 workers plus plain threads".into());
 }
 
